@@ -80,6 +80,13 @@ impl FeoxStore {
         let read_only = matches!(&open_mode, OpenMode::ReadOnly(_));
         // Initialize hash table with configured capacity
         let hasher = RandomState::new();
+        #[cfg(feature = "verif")]
+        let hasher = if crate::verif::flag("fixed_hasher") {
+            // Reproducible bucket / version-clock shard assignment for the harness.
+            RandomState::with_seeds(0x5eed, 0xfe0c, 0xdb, 0x1234)
+        } else {
+            hasher
+        };
         let hash_table = HashMap::with_capacity_and_hasher(1 << config.hash_bits, hasher.clone());
 
         let free_space = Arc::new(RwLock::new(FreeSpaceManager::new()));
